@@ -3,14 +3,14 @@
 import sys, time
 sys.path.insert(0, "/verif/lib")
 import vlib
-for name in ["GenShapes_k8", "GenPrint_s5", "TreeMacro7", "Gen_s5g0", "Gen_s4g2"]:
+for name in ["GenShapes_k8", "GenRecycled_k7", "GenPrint_s5", "TreeMacro7", "Gen_s5g0", "Gen_s4g2"]:
     t = time.time()
     try:
         p, m = vlib.ensure_bundles(name, workers=8)
         print(name, m["states"], m["transitions"], "cached" if m["cached"] else "generated", round(time.time() - t), "s", flush=True)
     except Exception as e:
         print(name, "FAILED", str(e)[:500], flush=True)
-for name in ["MC_any4", "MC_fifo5", "mechanisms/Links5", "mechanisms/Readers3"]:
+for name in ["MC_any4", "MC_fifo5", "mechanisms/Links5", "mechanisms/Readers3", "mechanisms/ArenaImpl4"]:
     t = time.time()
     try:
         r = vlib.run_mc(name, workers=8, xmx="16g")
